@@ -272,7 +272,12 @@ def run(tier="quick", seed=0, repo="/repo"):
         _enumerate(rec, tier, seed, bound)
     except O.Abort:
         bound["text"] = bound.get("text", "") + " [enumeration stopped early: calls into the real code did not terminate]"
-    return rec.result(RULE, bound.get("text", "stopped before the bound was fixed"), exhaustive=False, section_seconds=bound.get("timing", {}))
+    kinds = {}
+    for f in rec.nontrivial:
+        k = f[0] if isinstance(f, tuple) else "other"
+        kinds[k] = kinds.get(k, 0) + 1
+    return rec.result(RULE, bound.get("text", "stopped before the bound was fixed"), exhaustive=False, section_seconds=bound.get("timing", {}),
+                      nontrivial_by_kind=kinds)
 
 
 def _enumerate(rec, tier, seed, bound_out):
@@ -287,7 +292,7 @@ def _enumerate(rec, tier, seed, bound_out):
             timing[t0[1]] = round(timing.get(t0[1], 0.0) + now - t0[0], 1)
         t0[0], t0[1] = now, label
     n_where = 10 if quick else 15
-    n_peaks = 6 if quick else 8
+    n_peaks = 7 if quick else 8
     bs = [1, 2, 3, 4] if quick else [1, 2, 3, 4, 5, 6]
     n_max = 12 if quick else 16
     bs_d = [1, 2, 3, 4, 6] if quick else [1, 2, 3, 4, 5, 6, 8]
@@ -339,7 +344,7 @@ def _enumerate(rec, tier, seed, bound_out):
     # (4) detector class (+ reversal)
     for b in bs_d:
         mdis = admissible_mdi(b)
-        ns = sorted({2 * b, 2 * b + 1, 2 * b + 3, min(2 * b + 6, 14)}) if quick else list(range(2 * b, 2 * b + 9))
+        ns = sorted({2 * b, 2 * b + 1, 2 * b + 2, 2 * b + 3, 2 * b + 5, min(2 * b + 6, 14)}) if quick else list(range(2 * b, 2 * b + 9))
         for n in ns:
             for p in (1, 2):
                 if quick and p == 2 and n != 2 * b + 3:
